@@ -65,10 +65,20 @@ fn seen(r: &ReqRec) -> SeenReq {
 
 /// Feed `segments` one read at a time (the connection is polled only when woken), then EOF.
 pub fn run_stream(segments: &[Vec<u8>], burst: usize) -> Obs {
+    run_stream_with(segments, burst, false)
+}
+
+/// `block_writes`: the socket accepts nothing while the input is being delivered (a peer that
+/// sends without reading) and everything afterwards.  What the application sees and what is
+/// eventually written must not depend on that.
+pub fn run_stream_with(segments: &[Vec<u8>], burst: usize, block_writes: bool) -> Obs {
     let segs: Vec<Vec<u8>> = segments.to_vec();
     run_virtual(async move {
         let w = world(vec![], 0);
         let (mut d, io) = open_h1(&ConnCfg::persistent(), w.clone()).await;
+        if block_writes {
+            io.set_credit(0);
+        }
         let mut livelock = false;
         livelock |= settle(&mut d, 10_000).await.is_none();
         let mut i = 0;
@@ -85,6 +95,10 @@ pub fn run_stream(segments: &[Vec<u8>], burst: usize) -> Obs {
             if d.done() {
                 break;
             }
+        }
+        if block_writes {
+            io.set_credit(usize::MAX);
+            livelock |= settle(&mut d, 10_000).await.is_none();
         }
         io.eof();
         livelock |= settle(&mut d, 10_000).await.is_none();
@@ -325,16 +339,17 @@ struct Case<'a> {
     cuts: Vec<usize>,
     burst: usize,
     intended: Option<&'static str>,
+    block_writes: bool,
 }
 
 fn replay_json(c: &Case) -> serde_json::Value {
-    json!({"stream": esc(c.stream), "cuts": c.cuts, "burst": c.burst})
+    json!({"stream": esc(c.stream), "cuts": c.cuts, "burst": c.burst, "block_writes": c.block_writes})
 }
 
 fn eval_case(c: &Case, rp: &RefParse, baseline: Option<&Obs>, rep: &mut Reporter) -> Option<Obs> {
     rep.eval();
     let segs = split_at_cuts(c.stream, &c.cuts);
-    let obs = match guard(|| run_stream(&segs, c.burst)) {
+    let obs = match guard(|| run_stream_with(&segs, c.burst, c.block_writes)) {
         Ok(o) => o,
         Err(p) => {
             rep.violation("panic", &panic_site(&p), &format!("panic while serving the stream: {p}"), replay_json(c));
@@ -343,6 +358,9 @@ fn eval_case(c: &Case, rp: &RefParse, baseline: Option<&Obs>, rep: &mut Reporter
     };
     if obs.livelock {
         rep.count("livelock_cap_hit", 1);
+    }
+    if c.block_writes {
+        rep.count("schedules_with_writes_blocked_during_input", 1);
     }
     for cut in &c.cuts {
         rep.count(&format!("cut:{}", h1_req::cut_class(rp, c.stream, *cut)), 1);
@@ -426,7 +444,9 @@ fn self_check(rp: &RefParse, intended: Option<&'static str>, rep: &mut Reporter)
             }
             true
         }
-        (Some(c), Terminal::Unmodelled(w)) if c.starts_with("head-too-large") && *w == h1_req::AMBIGUOUS_HEAD => true,
+        // an ambiguous head (above the ceiling but within one read of it) may also belong to a
+        // well-formed request in front of the malformed one: the case is judged under both readings
+        (Some(_), Terminal::Unmodelled(w)) if *w == h1_req::AMBIGUOUS_HEAD => true,
         (Some(c), t) => {
             rep.inconclusive(&format!("generator class {c} not rejected by the reference ({t:?})"));
             false
@@ -448,8 +468,9 @@ pub fn run(ctx: &Ctx, rep: &mut Reporter) {
         let cuts: Vec<usize> = r["cuts"].as_array().map(|a| a.iter().filter_map(|x| x.as_u64().map(|x| x as usize)).collect()).unwrap_or_default();
         let burst = r["burst"].as_u64().unwrap_or(1) as usize;
         let rp = h1_req::parse_stream(&stream);
-        let base = eval_case(&Case { stream: &stream, cuts: vec![], burst: 1, intended: None }, &rp, None, rep);
-        eval_case(&Case { stream: &stream, cuts, burst, intended: None }, &rp, base.as_ref(), rep);
+        let base = eval_case(&Case { stream: &stream, cuts: vec![], burst: 1, intended: None, block_writes: false }, &rp, None, rep);
+        let block_writes = r["block_writes"].as_bool().unwrap_or(false);
+        eval_case(&Case { stream: &stream, cuts, burst, intended: None, block_writes }, &rp, base.as_ref(), rep);
         rep.sig("replay-a");
         rep.sig("replay-b");
         return;
@@ -465,20 +486,23 @@ pub fn run(ctx: &Ctx, rep: &mut Reporter) {
         if !self_check(&rp, *intended, rep) {
             continue;
         }
-        let base = eval_case(&Case { stream, cuts: vec![], burst: 1, intended: *intended }, &rp, None, rep);
+        let base = eval_case(&Case { stream, cuts: vec![], burst: 1, intended: *intended, block_writes: false }, &rp, None, rep);
         let Some(base) = base else { continue };
         let n = stream.len();
         // all-1-byte reads
         idx += 1;
         if ctx.mine(idx) {
             let cuts: Vec<usize> = (1..n).collect();
-            eval_case(&Case { stream, cuts, burst: 1, intended: *intended }, &rp, Some(&base), rep);
+            eval_case(&Case { stream, cuts: cuts.clone(), burst: 1, intended: *intended, block_writes: false }, &rp, Some(&base), rep);
             rep.sig(&shape_sig(&rp, &["all-1-byte"]));
+            eval_case(&Case { stream, cuts, burst: 1, intended: *intended, block_writes: true }, &rp, Some(&base), rep);
+            eval_case(&Case { stream, cuts: vec![], burst: 1, intended: *intended, block_writes: true }, &rp, Some(&base), rep);
+            rep.sig(&shape_sig(&rp, &["writes-blocked"]));
         }
         for a in 1..n {
             idx += 1;
             if ctx.mine(idx) {
-                eval_case(&Case { stream, cuts: vec![a], burst: 1, intended: *intended }, &rp, Some(&base), rep);
+                eval_case(&Case { stream, cuts: vec![a], burst: 1, intended: *intended, block_writes: false }, &rp, Some(&base), rep);
                 rep.sig(&shape_sig(&rp, &[h1_req::cut_class(&rp, stream, a)]));
             }
             if pairs {
@@ -491,7 +515,7 @@ pub fn run(ctx: &Ctx, rep: &mut Reporter) {
                         complete = false;
                         break;
                     }
-                    eval_case(&Case { stream, cuts: vec![a, b], burst: 1, intended: *intended }, &rp, Some(&base), rep);
+                    eval_case(&Case { stream, cuts: vec![a, b], burst: 1, intended: *intended, block_writes: false }, &rp, Some(&base), rep);
                     rep.sig(&shape_sig(&rp, &[h1_req::cut_class(&rp, stream, a), h1_req::cut_class(&rp, stream, b)]));
                 }
             }
@@ -527,7 +551,7 @@ pub fn run(ctx: &Ctx, rep: &mut Reporter) {
             }
             continue;
         }
-        let base = eval_case(&Case { stream: &p.bytes, cuts: vec![], burst: 1, intended: p.intended_bad }, &rp, None, rep);
+        let base = eval_case(&Case { stream: &p.bytes, cuts: vec![], burst: 1, intended: p.intended_bad, block_writes: false }, &rp, None, rep);
         let Some(base) = base else { continue };
         let nsched = 3;
         for s in 0..nsched {
@@ -552,7 +576,8 @@ pub fn run(ctx: &Ctx, rep: &mut Reporter) {
             };
             let burst = if rng.chance(1, 4) { rng.range(2, 4) } else { 1 };
             let classes: Vec<&str> = cuts.iter().take(64).map(|c| h1_req::cut_class(&rp, &p.bytes, *c)).collect();
-            eval_case(&Case { stream: &p.bytes, cuts: cuts.clone(), burst, intended: p.intended_bad }, &rp, Some(&base), rep);
+            // the last schedule of each case runs against a peer that does not read while it sends
+            eval_case(&Case { stream: &p.bytes, cuts: cuts.clone(), burst, intended: p.intended_bad, block_writes: s + 1 == nsched }, &rp, Some(&base), rep);
             rep.sig(&shape_sig(&rp, &classes));
             if k == 0 && s == 1 {
                 rep.sample("random-pipeline", json!({"stream": esc_short(&p.bytes, 600), "cuts": cuts, "burst": burst, "reference": reject_sig(&rp), "requests_in_reference": rp.reqs.len()}));
@@ -577,10 +602,10 @@ pub fn run(ctx: &Ctx, rep: &mut Reporter) {
         let cut = rng.range(1, p.bytes.len());
         let stream = &p.bytes[..cut];
         let rp = h1_req::parse_stream(stream);
-        let base = eval_case(&Case { stream, cuts: vec![], burst: 1, intended: None }, &rp, None, rep);
+        let base = eval_case(&Case { stream, cuts: vec![], burst: 1, intended: None, block_writes: false }, &rp, None, rep);
         let Some(base) = base else { continue };
         let cuts = rng.cuts(stream.len(), 6);
-        eval_case(&Case { stream, cuts, burst: 1, intended: None }, &rp, Some(&base), rep);
+        eval_case(&Case { stream, cuts, burst: 1, intended: None, block_writes: false }, &rp, Some(&base), rep);
         rep.sig(&format!("trunc|{}|{}", reject_sig(&rp), h1_req::cut_class(&h1_req::parse_stream(&p.bytes), &p.bytes, cut.min(p.bytes.len() - 1).max(1))));
         rep.count("truncated_streams", 1);
     }
